@@ -129,3 +129,23 @@ Proof.
   intros HS m Hin. apply (matches_all_host_order (relabel pi host) host' (relabel sg pat) HS).
   rewrite C05_Pipe.matches_all_relabel by assumption. apply in_map. exact Hin.
 Qed.
+
+(** ** the run function shares the exhaustive enumeration between its observables; it computes what [t_variant] defines *)
+Lemma raw_shared_eq host p strat : raw_shared (all_enum host p) strat host p = raw_of strat host p.
+Proof.
+  unfold raw_shared. destruct (N.eqb_spec strat 0) as [->|Hne]; [|reflexivity].
+  unfold raw_of, raw_of_enum, all_enum. rewrite matches_all_unfold. reflexivity.
+Qed.
+
+Lemma t_variant_shared_eq inv imp ex strats v : t_variant_shared inv imp ex strats v = t_variant inv imp ex strats v.
+Proof.
+  unfold t_variant_shared, t_variant. destruct (prepare inv imp (snd v)) as [p|]; [|reflexivity].
+  cbv zeta. change (side_okb_c_with (all_enum (fst v) p) (fst v) p) with (side_okb_c (fst v) p).
+  assert (E : tlist (fun s : N => t_strategy_raw ex (fst v) p s (raw_shared (all_enum (fst v) p) s (fst v) p)) strats
+              = tlist (t_strategy ex (fst v) p) strats).
+  { unfold tlist. f_equal. apply map_ext. intros s. unfold t_strategy. rewrite raw_shared_eq. reflexivity. }
+  rewrite E. reflexivity.
+Qed.
+
+Lemma run_c05_eq inv imp ex strats vs : run_c05 inv imp ex strats vs = tlist (t_variant inv imp ex strats) vs.
+Proof. unfold run_c05, tlist. f_equal. apply map_ext. intros v. apply t_variant_shared_eq. Qed.
